@@ -10,6 +10,8 @@ use crate::util::*;
 mod attr;
 #[path = "docs_cost.rs"]
 mod cost;
+#[path = "docs_gen.rs"]
+mod gen;
 #[path = "docs_project.rs"]
 pub mod project;
 
@@ -21,6 +23,7 @@ pub fn main(sub: &str, args: &[String]) -> i32 {
         s if s.starts_with("doc-attr-") => attr::main(s, args),
         s if s.starts_with("doc-cost-") => cost::main(s, args),
         "doc-replay" => replay(args),
+        "doc-record" => gen::record(args),
         _ => {
             eprintln!("unknown subcommand {}", sub);
             2
